@@ -83,7 +83,9 @@ def rand_items(rng, t, vals):
             items.append('(arr (%d) (%s))' % (len(ix), ' '.join(map(str, ix))))
             ndim += 1
             arr_state = 1
-        elif r >= 0.93:
+        elif r >= 0.93 and not any(it.startswith('(flds') for it in items):
+            # (after a list of fields a further field item selects INSIDE each projected field -- nested records --;
+            # whether it exists there is decided by the type, also when no record is selected: not generated)
             names = ['a', 'b', 'c', 'x', 'y', 'pt', '0', '1']
             arr_state = 2 if arr_state == 1 else arr_state
             if rng.random() < 0.7:
